@@ -807,6 +807,9 @@ func (ev *Ev) box(v Value) Value {
 		// boxed composite: injective uninterpreted constructor over the leaves is overkill; use a fresh ref
 		b := ev.u.fresh("boxed", SRef)
 		ev.st.assume(not(app("=", b, "nil"))) // an interface holding a struct or slice value is not nil
+		if v.K == vStruct && v.Typ != nil {
+			ev.st.assume(app("=", app(ev.u.dynTypeFn(), b), ev.u.dynTypeID(v.Typ))) // its dynamic type is the struct type
+		}
 		if v.K == vSlice {
 			// remember length and set view of a boxed slice
 			ev.st.assume(app("=", app(ev.u.declareFun("boxlen", []Sort{SRef}, SInt), b), v.Comp["#len"].T))
@@ -1891,6 +1894,7 @@ func (ev *Ev) compositeLit(x *ast.CompositeLit, addr bool) Value {
 		u.zeroWaitGroups(ev.st, t, ref)
 		u.checkTypeInvAlloc(ev, t, ref)
 		u.allocT[ref] = t
+		ev.st.assume(app("=", app(u.dynTypeFn(), ref), u.dynTypeID(types.NewPointer(t))))
 		return scalar(ref, SRef, types.NewPointer(t))
 	}
 	return v
